@@ -42,6 +42,8 @@ from .. import facts as F
 from .c12 import flat_vector
 
 PROP = 'C09'
+from . import lemmas as _lemmas
+LEMMAS = [_lemmas.ALGEBRA]
 RULES = {'P1': 'BoundaryFace mutators raise the dirty flag', 'P2': 'writers of _value raise the flag or recompute', 'P3': 'TrackedArray flag semantics',
          'P4': 'solvePDE never uses a stale cached boundary term when a flag is set', 'P4e': 'solveExplicitPDE entered dirty keeps the invariant for its input variable', 'P5': 'apply_BCs recomputes then clears', 'P6': 'cache defined before use',
          'P7': 'no shared boundary-condition object between variables', 'P8': 'copies / arithmetic results independent', 'P9': 'only apply_BCs/__init__ clear the flags', 'P8u': 'update_value / value setter leave no shared storage'}
